@@ -675,6 +675,11 @@ pub fn suite_w(out: &mut Out, seed: u64, thorough: bool, filter: &[String], wide
 				0 => 1,
 				1 => 2,
 				2 => (max - 1).min(254) as usize,
+				// wide PeriodType builds: weight vectors longer than the narrow type could hold
+				3 if wide => 255usize.min(max as usize - 1),
+				4 if wide => 256usize.min(max as usize - 1),
+				5 if wide => 300usize.min(max as usize - 1),
+				6 if wide => 1000usize.min(max as usize - 1),
 				_ => 1 + r.below(40) as usize,
 			};
 			let kind = r.below(4);
